@@ -431,6 +431,7 @@ def run_conditional(ctx, sf):
 def run(ctx, sf):
     sf.hbar = 2
     run_conditional(ctx, sf)
+    simcorr.run_loss_corr(ctx)
     simcorr.run_fock_corr(ctx, ctx.n(220, 2200))
     simcorr.run_bos_corr(ctx, ctx.n(100, 1000))
     simcorr.run_gauss_corr(ctx, ctx.n(100, 1000))
